@@ -1,5 +1,5 @@
 CONSTANTS NP = 4
- NT = 3
+ NT = 2
  NF = 2
  NA = 3
  Light = FALSE
